@@ -8,7 +8,11 @@ import (
 	"errors"
 	"fmt"
 	"os"
+	"runtime"
+	"strconv"
 	"strings"
+	"sync"
+	"sync/atomic"
 
 	"github.com/drand/drand/v2/common"
 	"github.com/drand/drand/v2/crypto"
@@ -22,6 +26,8 @@ func init() { engines["chain"] = chainEngine }
 
 type chainSUT struct {
 	backend string
+	scheme  string
+	seed    []byte
 	chained bool
 	dir     string
 	base    chain.Store
@@ -50,18 +56,18 @@ func (c *chainSUT) openBase() {
 		c.base = s
 	default:
 		if c.base == nil { // memdb survives only within the process
-			c.base = memdb.NewStore(2000)
+			capa := 2000
+			if len(c.backend) > 3 {
+				capa, _ = strconv.Atoi(c.backend[3:])
+			}
+			c.base = memdb.NewStore(capa)
 		}
 	}
 }
 
 // build assembles the wrappers exactly like newChainStore: append(scheme(base)).
 func (c *chainSUT) build() {
-	name := crypto.UnchainedSchemeID
-	if c.chained {
-		name = crypto.DefaultSchemeID
-	}
-	ss, err := beacon.NewSchemeStore(c.ctx, c.base, mustScheme(name))
+	ss, err := beacon.NewSchemeStore(c.ctx, c.base, mustScheme(c.scheme))
 	if err != nil {
 		panic(err)
 	}
@@ -114,13 +120,14 @@ func chainEngine(args []string, in *bufio.Scanner, out *bufio.Writer) {
 			switch f[0] {
 			case "init":
 				closeAll()
-				c = &chainSUT{backend: args[0], chained: f[1] == "1"}
-				if c.backend != "mem" {
+				// the daemon asks for previous signatures exactly for the default (chained) scheme
+				c = &chainSUT{backend: args[0], scheme: f[1], seed: unhx(f[2]), chained: f[1] == crypto.DefaultSchemeID}
+				if !strings.HasPrefix(c.backend, "mem") {
 					c.dir = tmpDir()
 				}
 				c.openBase()
 				// NewHandler: genesis beacon goes straight into the base store
-				if err := c.base.Put(c.ctx, chain.GenesisBeacon(unhx(f[2]))); err != nil {
+				if err := c.base.Put(c.ctx, chain.GenesisBeacon(c.seed)); err != nil {
 					return "err:" + err.Error()
 				}
 				c.build()
@@ -133,12 +140,88 @@ func chainEngine(args []string, in *bufio.Scanner, out *bufio.Writer) {
 				}
 				return "ok"
 			case "restart":
-				if c.backend != "mem" {
+				if !strings.HasPrefix(c.backend, "mem") {
 					c.base.Close()
 					c.openBase()
 				}
+				// every start goes through NewHandler, which re-puts the genesis beacon into the base store
+				if err := c.base.Put(c.ctx, chain.GenesisBeacon(c.seed)); err != nil {
+					return "err:" + err.Error()
+				}
 				c.build()
 				return "ok"
+			case "failput": // the write reaches the back-end with a cancelled context
+				cctx, cancel := context.WithCancel(c.ctx)
+				cancel()
+				err := c.top.Put(cctx, parseBeacon(f[1], f[2], f[3]))
+				if err != nil && errors.Is(err, context.Canceled) {
+					return "err-write"
+				}
+				return classifyPut(err)
+			case "race": // race <n> <workers>: goroutines race to append the same n next beacons through the real stack
+				n, _ := strconv.Atoi(f[1])
+				w, _ := strconv.Atoi(f[2])
+				last, err := c.top.Last(c.ctx)
+				if err != nil {
+					return "err:" + err.Error()
+				}
+				// the beacons every writer tries to append (identical values, as aggregation and sync would produce)
+				bs := make([]*common.Beacon, n)
+				prev := last.Signature
+				for i := 0; i < n; i++ {
+					r := last.Round + 1 + uint64(i)
+					sig := []byte{byte(r * 7), byte(r), 0x5a}
+					p := prev
+					if !c.chained {
+						p = nil
+					}
+					bs[i] = &common.Beacon{Round: r, Signature: sig, PreviousSig: p}
+					prev = sig
+				}
+				var wg sync.WaitGroup
+				oks := make([]int32, n)
+				var bad int32
+				for k := 0; k < w; k++ {
+					wg.Add(1)
+					go func() {
+						defer wg.Done()
+						for i := 0; i < n; i++ {
+							for tries := 0; ; tries++ {
+								b := *bs[i]
+								err := c.top.Put(c.ctx, &b)
+								cl := classifyPut(err)
+								if cl == "ok" {
+									atomic.AddInt32(&oks[i], 1)
+									break
+								}
+								if cl == "already" {
+									break
+								}
+								if cl == "bad-round" {
+									// either somebody else is behind us (retry) or already past this round (done)
+									l, _ := c.top.Last(c.ctx)
+									if l != nil && l.Round >= b.Round {
+										break
+									}
+									if tries > 3000 {
+										atomic.AddInt32(&bad, 1)
+										break
+									}
+									runtime.Gosched()
+									continue
+								}
+								atomic.AddInt32(&bad, 1)
+								break
+							}
+						}
+					}()
+				}
+				wg.Wait()
+				var okl []string
+				for _, v := range oks {
+					okl = append(okl, strconv.Itoa(int(v)))
+				}
+				return fmt.Sprintf("race oks=%s bad=%d", strings.Join(okl, ","), bad)
 			case "last":
 				return showBeacon(c.top.Last(c.ctx))
 			case "scan":
